@@ -2,6 +2,7 @@ package netsim
 
 import (
 	"fmt"
+	"strings"
 
 	"github.com/icon-project/goloop/consensus"
 )
@@ -137,4 +138,89 @@ func (o *oracle) ensureValidators(h int64) {
 		o.validators[h] = validatorsOf(blk.NextValidators())
 		return
 	}
+}
+
+// ---- local commit certificate (C01 second sentence / C05 at the node boundary)
+//
+// Every path into a commit (consensus, vote sync, fast sync) goes through
+// enterCommit, which writes the precommits it commits on to the commit WAL.
+// When a correct validator later reports height h as finalized with block id,
+// the last such record it wrote for h must itself be a certificate for id:
+// valid precommit signatures of more than two thirds of the validators of h,
+// all over (h, one round, id, one part set).
+
+type commitRecord struct {
+	votes []*consensus.VoteMessage
+}
+
+func (o *oracle) onCommitWAL(n *node, rec []byte) {
+	if len(rec) < 2 {
+		return
+	}
+	sub := uint16(rec[0])<<8 | uint16(rec[1])
+	msg, err := consensus.UnmarshalMessage(sub, rec[2:])
+	if err != nil {
+		return
+	}
+	vlm, ok := msg.(*consensus.VoteListMessage)
+	if !ok || vlm.VoteList == nil || vlm.VoteList.Len() == 0 {
+		return
+	}
+	cr := &commitRecord{}
+	for i := 0; i < vlm.VoteList.Len(); i++ {
+		cr.votes = append(cr.votes, vlm.VoteList.Get(i))
+	}
+	if n.commitRecs == nil {
+		n.commitRecs = map[int64]*commitRecord{}
+	}
+	n.commitRecs[cr.votes[0].Height] = cr
+}
+
+func (o *oracle) checkLocalCertificate(n *node, h int64, id string) {
+	cr := n.commitRecs[h]
+	if cr == nil {
+		o.s.rc.Probe("no_commit_wal_record_for_finalized_height")
+		return
+	}
+	vals := o.validators[h]
+	if len(vals) == 0 {
+		return
+	}
+	isVal := map[string]bool{}
+	for _, v := range vals {
+		isVal[v.String()] = true
+	}
+	// group by (round, block id, part set): the best group must carry the quorum and be for id
+	groups := map[string]map[string]bool{}
+	for _, vm := range cr.votes {
+		if vm.Height != h || vm.Type != consensus.VoteTypePrecommit || vm.BlockPartSetIDAndNTSVoteCount == nil {
+			continue
+		}
+		signer := signerOf(vm.Signature, consensus.SimSignedBytes(vm))
+		if signer == "" || !isVal[signer] {
+			continue
+		}
+		k := fmt.Sprintf("%d/%x/%x:%x", vm.Round, vm.BlockID, vm.BlockPartSetIDAndNTSVoteCount.CountWord, vm.BlockPartSetIDAndNTSVoteCount.Hash)
+		if groups[k] == nil {
+			groups[k] = map[string]bool{}
+		}
+		groups[k][signer] = true
+	}
+	o.s.rc.Metric("local_certificates_checked", 1)
+	best, bestKey := 0, ""
+	for k, g := range groups {
+		if strings.Contains(k, "/"+id+"/") && len(g) > best {
+			best, bestKey = len(g), k
+		}
+	}
+	if 3*best > 2*len(vals) {
+		return
+	}
+	other := 0
+	for k, g := range groups {
+		if k != bestKey && len(g) > other {
+			other = len(g)
+		}
+	}
+	o.s.rc.Violate("finalized-without-quorum", "commit-wal-record", "n%d finalized height %d block %.12s but the precommits it recorded when entering commit certify it with only %d of %d validators (largest group for anything else: %d)", n.idx, h, id, best, len(vals), other)
 }
